@@ -387,33 +387,38 @@ def blowfish_initial_state():
 
 
 def _bf_encipher(P, S, L, R):
-    """16-round Feistel network on two 32-bit halves."""
+    """16-round Feistel network on two 32-bit halves.
+
+    Round i (Schneier): xL ^= P[i]; xR ^= F(xL); swap.  After round 16 the last swap is
+    undone and xR ^= P[17], xL ^= P[18] (1-based).  Two rounds are written per loop
+    iteration so that the swaps become a change of roles instead of data movement.
+    F(x) = ((S1[a] + S2[b] mod 2^32) XOR S3[c]) + S4[d] mod 2^32, x = a|b|c|d.
+    """
     s0, s1, s2, s3 = S
-    for i in range(16):
+    M = 0xFFFFFFFF
+    for i in range(0, 16, 2):
         L ^= P[i]
-        # F(x) = ((S1[a] + S2[b] mod 2^32) XOR S3[c]) + S4[d] mod 2^32
-        f = ((((s0[L >> 24] + s1[(L >> 16) & 0xFF]) & _M32) ^ s2[(L >> 8) & 0xFF])
-             + s3[L & 0xFF]) & _M32
-        R ^= f
-        L, R = R, L
-    L, R = R, L          # undo the last swap
-    R ^= P[16]
-    L ^= P[17]
-    return L, R
+        R ^= ((((s0[L >> 24] + s1[(L >> 16) & 0xFF]) & M) ^ s2[(L >> 8) & 0xFF])
+              + s3[L & 0xFF]) & M
+        R ^= P[i + 1]
+        L ^= ((((s0[R >> 24] + s1[(R >> 16) & 0xFF]) & M) ^ s2[(R >> 8) & 0xFF])
+              + s3[R & 0xFF]) & M
+    # undo the 16th swap, then the output whitening
+    return R ^ P[17], L ^ P[16]
 
 
 def _bf_decipher(P, S, L, R):
+    """Same network with the sub-keys in reverse order."""
     s0, s1, s2, s3 = S
-    for i in range(17, 1, -1):
+    M = 0xFFFFFFFF
+    for i in range(17, 1, -2):
         L ^= P[i]
-        f = ((((s0[L >> 24] + s1[(L >> 16) & 0xFF]) & _M32) ^ s2[(L >> 8) & 0xFF])
-             + s3[L & 0xFF]) & _M32
-        R ^= f
-        L, R = R, L
-    L, R = R, L
-    R ^= P[1]
-    L ^= P[0]
-    return L, R
+        R ^= ((((s0[L >> 24] + s1[(L >> 16) & 0xFF]) & M) ^ s2[(L >> 8) & 0xFF])
+              + s3[L & 0xFF]) & M
+        R ^= P[i - 1]
+        L ^= ((((s0[R >> 24] + s1[(R >> 16) & 0xFF]) & M) ^ s2[(R >> 8) & 0xFF])
+              + s3[R & 0xFF]) & M
+    return R ^ P[0], L ^ P[1]
 
 
 def _bf_stream_words(data, n, start=0):
@@ -1090,10 +1095,14 @@ def selftest(full=True, seed=0x5EED):
     eq("bcrypt_b64", bcrypt_b64encode(b"\xff\xff\xff"), b"9999")
     eq("bcrypt_b64", bcrypt_b64decode(b"DCq7YPn5Rq63x1Lad4cll."),
        H("144b3d691a7b4ecf39cf735c7fa7a79c"))
+    import base64
+    std = b"ABCDEFGHIJKLMNOPQRSTUVWXYZabcdefghijklmnopqrstuvwxyz0123456789+/"
+    to_bcrypt = bytes.maketrans(std, _BCRYPT_ALPHABET)
     for _ in range(50):
         d = rnd.randbytes(rnd.randrange(0, 40))
         e = bcrypt_b64encode(d)
         eq("bcrypt_b64", len(e), (len(d) * 4 + 2) // 3)
+        eq("bcrypt_b64", e, base64.b64encode(d).rstrip(b"=").translate(to_bcrypt))
         eq("bcrypt_b64", bcrypt_b64decode(e, strict=True), d)
     raises("bcrypt_b64_errors", bcrypt_b64decode, b"abc=")
     raises("bcrypt_b64_errors", bcrypt_b64decode, b"a")
@@ -1121,7 +1130,6 @@ def selftest(full=True, seed=0x5EED):
     for pw, hs in kat:
         prefix, cost, salt16, digest = bcrypt_parse(hs)
         eq("bcrypt_kat", bcrypt_hash(pw, cost, salt16, prefix), hs, repr(pw[:12]))
-        eq("bcrypt_kat", bcrypt_raw(pw, salt16, cost), digest, repr(pw[:12]))
     eq("bcrypt_check", bcrypt_check(b"a", kat[1][1]), True)
     eq("bcrypt_check", bcrypt_check(b"b", kat[1][1]), False)
     good = kat[0][1]
@@ -1169,7 +1177,10 @@ def selftest(full=True, seed=0x5EED):
             pw = text.encode("utf-8")
             assert len(pw) == ln and b"\0" not in pw
             salt16 = rnd.randbytes(16)
-            prefix = rnd.choice(["2b", "2a", "2y"])
+            # crypt_blowfish/libxcrypt deliberately perturb some 8-bit $2a$ hashes (the
+            # "safety" countermeasure for the old sign-extension bug), so $2a$ is only
+            # compared for pure-ASCII passwords; $2b$/$2y$ are bug-free everywhere.
+            prefix = rnd.choice(["2b", "2a", "2y"] if pw.isascii() else ["2b", "2y"])
             setting = "$%s$04$%s" % (prefix, bcrypt_b64encode(salt16).decode())
             ref = _crypt.crypt(text, setting)
             if ref is None:
